@@ -32,6 +32,8 @@ from sx.core import SBytes, SInt, SBool, s_and, s_or, s_not
 
 _core.UTF8_CLASS_DECODE = True    # peer text: fork on UTF-8 structure, sample the characters (see sx/core.py)
 
+from sx import hook as _hook      # noqa: E402
+_hook.import_tree('exabgp.bgp')   # every decoder module the package ships, in the symbolic worker AND the replay interpreter (same registries)
 from checks import c15 as R       # registry-driven plans / shapes (shared with C15)   # noqa: E402
 from kits import apievents as A   # noqa: E402
 from kits import session as S     # noqa: E402
@@ -71,14 +73,18 @@ ASSUMPTIONS = [
     'symbolic phase: Attribute.unpack / NLRI.unpack_nlri / Open.unpack_message / Notification(.data) / RouteRefresh / Operational.unpack_message '
     'called directly on symbolic octets; the surrounding message (ORIGIN, AS_PATH, NEXT_HOP or MP_REACH/MP_UNREACH framing) is concrete and '
     'decoded by Message.unpack on each witness; a witness whose decoded object does not reach the event is reported (C13:harness:*)',
+    'every module under exabgp.bgp is imported (the registries are those of the whole package: a superset of what the daemon imports, '
+    'e.g. the link-bandwidth extended community module is never imported by the daemon)',
     'SBytes.decode(utf-8/ascii) forks on the UTF-8 structure of the octets (complete partition) and samples the characters',
     'host name / pid / time in the envelope are whatever this machine returns',
     'CPython contract used by the oneline() proof: repr() escapes exactly the characters for which str.isprintable() is false, with ASCII output',
 ]
 BOUNDS = {
-    'quick': 'payload sizes and shapes of C15 quick (registry driven); capability values <= 6 free octets, text capabilities <= 3+3 octets; '
-             'NOTIFICATION data <= 4 octets; OPERATIONAL advisory <= 3 octets; 1 + <=4 witnesses per path',
-    'thorough': 'payload sizes and shapes of C15 thorough; capability values <= 8; NOTIFICATION data <= 5; advisory <= 4',
+    'quick': 'payload sizes and shapes of C15 quick (registry driven); capability values <= 4 free octets, text capabilities <= 3 octets; '
+             'shutdown communication <= 3 octets; OPERATIONAL advisory <= 2 octets; oneline() on <= 2 code points; witnesses per path: the ordinary model + 2 hostile '
+             '(rotation of hostile octets, key-injection payload), 1 hostile on refused paths',
+    'thorough': 'payload sizes and shapes of C15 thorough; capability values <= 6; shutdown communication <= 4; advisory <= 3; oneline() on <= 3 code points; '
+                'ordinary model + 4 hostile witnesses per path (rotation, injection, all LF/CR, all >= 0x80)',
 }
 OUTSIDE = [
     'the rendering obligations hold for the witnesses rendered (ordinary + hostile models per decoder path), not for all octet values of a path',
@@ -104,8 +110,12 @@ REFUSAL = R.REFUSAL
 
 # ----------------------------------------------------------------------------- hostile witnesses
 
-HOSTILE = [0x22, 0x5C, 0x0A, 0x0D, 0x00, 0x7F, 0xFF, 0x7D, 0x2C, 0x3A, 0x1B, 0x80, 0x27, 0x7B, 0x5B, 0x25, 0x09, 0x5D]
+HOSTILE = [0x22, 0xFF, 0x0A, 0x5C, 0x0D, 0x00, 0x7F, 0x7D, 0x2C, 0x3A, 0x1B, 0x80, 0x27, 0x7B, 0x5B, 0x25, 0x09, 0x5D]
 INJECT = b'","z":"'
+
+
+PROFILES = {'quick': ('rot', 'inject'), 'thorough': ('rot', 'inject', 'newline', 'high')}
+TIER = {'name': 'quick'}
 
 
 def hostile(ctx, items):
@@ -113,13 +123,25 @@ def hostile(ctx, items):
     that flow into peer-chosen strings: the path condition decides which of them are free)"""
     if not ctx.sym:
         return
+    want = PROFILES[TIER['name']]
     syms = [x for x in items if isinstance(x, SInt)]
     for i, b in enumerate(syms):
         member = s_or(b < 0x20, b == 0x22, b == 0x5C, b >= 0x7F, b == 0x7D, b == 0x2C, b == 0x3A)
         ctx.prefer('rot', b == HOSTILE[i % len(HOSTILE)], member)
-        ctx.prefer('inject', b == INJECT[i % len(INJECT)], b == 0x22, b == 0x5C)
-        ctx.prefer('newline', b == 0x0A, b == 0x0D, b < 0x20)
-        ctx.prefer('high', b == 0xFF, b >= 0x80)
+        if 'inject' in want:
+            ctx.prefer('inject', b == INJECT[i % len(INJECT)], b == 0x22, b == 0x5C)
+        if 'newline' in want:
+            ctx.prefer('newline', b == 0x0A, b == 0x0D, b < 0x20)
+        if 'high' in want:
+            ctx.prefer('high', b == 0xFF, b >= 0x80)
+
+
+def refused_path(ctx):
+    """a refused message is reported through the NOTIFICATION sent back: one hostile witness is enough there"""
+    if ctx.sym and TIER['name'] == 'quick':
+        for k in list(getattr(ctx, 'prefs', {})):
+            if k != 'rot':
+                del ctx.prefs[k]
 
 
 # ----------------------------------------------------------------------------- judging the events of one witness
@@ -253,6 +275,10 @@ def decode_and_render(ctx, kind, w, body, present, values=(), needles=()):
         ctx.witness_check('decoded-object-in-event', lambda: present is None, sig='C13:harness:%s:message-refused-%d-%d' % (kind, exc.code, exc.subcode),
                           info={'notify': str(exc)[:200], 'body': body.hex()})
         return send_notification(ctx, kind, w, exc)
+    except Exception as exc:
+        # not C13's claim (C03: only Notify may escape a decoder); Protocol.read_message turns it into Notify(1, 0)
+        ctx.note('decoder-raises', type(exc).__name__)
+        return send_notification(ctx, kind, w, Notify(1, 0, 'can not decode update message of type "%d"' % 2))
     if present is not None:
         ctx.witness_check('decoded-object-in-event', lambda: bool(present(msg)), sig='C13:harness:%s:decoded-object-not-in-event' % kind,
                           info={'body': body.hex()})
@@ -283,6 +309,11 @@ def expected_attr_strings(code, kind, data):
         v = bytes(data[4:4 + n])
         if t in (1026, 1098) and len(v) == n and len(data) == 4 + n:   # node name / link name
             out.append(v.decode('utf-8', 'replace'))
+    if code == 23 and len(data) >= 8 and data[0] * 256 + data[1] == 15 and data[4] in (129, 130):
+        n = data[5] * 256 + data[6]
+        v = bytes(data[7:7 + n])
+        if len(v) == n and n >= 1 and len(data) == 7 + n:                # SR policy (candidate path) name: flags + UTF-8
+            out.append(v[1:].decode('utf-8', 'replace'))
     return out
 
 
@@ -309,6 +340,8 @@ def h_attr(ctx, plans):
         out = ('refused', 'raises-' + type(exc).__name__)
     ctx.cover('%s:%s' % (name, out[0]))
     ctx.note('class', '%s:%s' % (kind, out[0]))
+    if out[0] == 'refused':
+        refused_path(ctx)
     if not ctx.sym:
         value = bytes(data)
         base = [ORIGIN, as_path(asn4), NEXT_HOP]
@@ -317,11 +350,11 @@ def h_attr(ctx, plans):
             body = update_body(asn4, [ORIGIN, as_path(asn4), tlv(flag, code, value)])
         else:
             body = update_body(asn4, base + [tlv(flag, code, value)], nlri=[8, 10])
-        present = attr_present(code) if out[0] == 'decoded' and len(value) > 0 else None
-        if out[0] == 'decoded' and present is None:
-            present = lambda msg: True   # an empty optional attribute decodes to an object the collection may drop  # noqa: E731
+        # MP_REACH/MP_UNREACH decode their NLRI lazily (a refusal shows only at message level), AS4_PATH/AS4_AGGREGATOR are
+        # merged into AS_PATH/AGGREGATOR and removed, an empty optional attribute may be dropped: no presence demanded there
+        present = attr_present(code) if out[0] == 'decoded' and len(value) > 0 and code not in (14, 15, 17, 18) else None
         needles = expected_attr_strings(code, kind, value) if out[0] == 'decoded' else ()
-        decode_and_render(ctx, kind, w, body, present if out[0] == 'decoded' else None, needles=needles)
+        decode_and_render(ctx, kind, w, body, present, needles=needles)
     return (name,) + out
 
 
@@ -379,6 +412,8 @@ def h_nlri(ctx, afi, safi, builder, addpath=False, action=Action.ANNOUNCE, kind=
         out = ('refused', 'raises-' + type(exc).__name__)
     ctx.cover(out[0])
     ctx.note('class', '%s:%s' % (kind, out[0]))
+    if out[0] == 'refused':
+        refused_path(ctx)
     if not ctx.sym:
         a, s = int(afi), int(safi)
         wire = list(bytes(data)[:n_used]) if out[0] == 'decoded' else list(bytes(data))
@@ -393,7 +428,9 @@ def h_nlri(ctx, afi, safi, builder, addpath=False, action=Action.ANNOUNCE, kind=
                 value = be(a, 2) + [s] + wire
                 body = update_body(True, [tlv(0x80, 15, value)])
                 present = (lambda msg: any(type(n).__name__ == klass for n in msg.data.withdraws))
-            decode_and_render(ctx, '%s:%s' % (kind, form), w, body, present if out[0] == 'decoded' else None)
+            # the octets were decoded as an announcement (or as a withdrawal): only the same form must show the same object
+            same_form = (form == 'reach') == (action == Action.ANNOUNCE)
+            decode_and_render(ctx, '%s:%s' % (kind, form), w, body, present if out[0] == 'decoded' and same_form else None)
     return out
 
 
@@ -467,7 +504,7 @@ def cap_shapes(code, th):
     elif code == Capability.CODE.MULTIPROTOCOL:
         shapes = {'free': lambda ctx: sym(ctx, 'v', ctx.pick('n', (0, 3, 4, 5) + ((8,) if th else ())))}
     elif code == Capability.CODE.ADD_PATH:
-        shapes = {'free': lambda ctx: sym(ctx, 'v', ctx.pick('n', (0, 3, 4, 5) + ((8,) if th else ())))}
+        shapes = {'free': lambda ctx: sym(ctx, 'v', ctx.pick('n', (0, 3, 4) + ((5, 8) if th else ())))}
     elif code == Capability.CODE.NEXTHOP:
         shapes = {'free': lambda ctx: sym(ctx, 'v', ctx.pick('n', (0, 5, 6, 7) + ((12,) if th else ())))}
     elif code == Capability.CODE.GRACEFUL_RESTART:
@@ -502,6 +539,8 @@ def h_cap(ctx, code, shape_name, builder, twice=False):
         out = ('refused', int(exc.code), int(exc.subcode))
     ctx.cover(out[0])
     ctx.note('class', 'cap-%s:%s' % (code, out[0]))
+    if out[0] == 'refused':
+        refused_path(ctx)
     if not ctx.sym:
         values, needles = [], []
         raw_value = bytes(value)
@@ -770,14 +809,15 @@ _ONELINE = {}
 
 def lift_oneline():
     """oneline() from the CURRENT source of response/text.py with str(value) -> __sx_str__, ''.join(gen) -> __sx_join__
-    and repr(x) -> __sx_repr__ so that it runs on symbolic characters; checked to be the only three rewrites."""
+    and repr(x) / ascii(x) -> __sx_repr__ / __sx_ascii__ so that it runs on symbolic characters; the number of rewrites
+    is checked (one str, one join, one escape call)."""
     import exabgp.reactor.api.response.text as mod
     path = mod.__file__
     if path in _ONELINE:
         return _ONELINE[path]
     tree = ast.parse(open(path).read(), path)
     fn = [n for n in tree.body if isinstance(n, ast.FunctionDef) and n.name == 'oneline'][0]
-    count = {'str': 0, 'join': 0, 'repr': 0}
+    count = {'str': 0, 'join': 0, 'escape': 0}
 
     class T(ast.NodeTransformer):
         def visit_Call(self, node):
@@ -786,9 +826,9 @@ def lift_oneline():
             if isinstance(f, ast.Name) and f.id == 'str' and len(node.args) == 1:
                 count['str'] += 1
                 return ast.copy_location(ast.Call(ast.Name('__sx_str__', ast.Load()), node.args, []), node)
-            if isinstance(f, ast.Name) and f.id == 'repr' and len(node.args) == 1:
-                count['repr'] += 1
-                return ast.copy_location(ast.Call(ast.Name('__sx_repr__', ast.Load()), node.args, []), node)
+            if isinstance(f, ast.Name) and f.id in ('repr', 'ascii') and len(node.args) == 1:
+                count['escape'] += 1
+                return ast.copy_location(ast.Call(ast.Name('__sx_%s__' % f.id, ast.Load()), node.args, []), node)
             if isinstance(f, ast.Attribute) and f.attr == 'join' and isinstance(f.value, ast.Constant) and f.value.value == '':
                 count['join'] += 1
                 return ast.copy_location(ast.Call(ast.Name('__sx_join__', ast.Load()), node.args, []), node)
@@ -796,7 +836,8 @@ def lift_oneline():
     fn = ast.fix_missing_locations(T().visit(fn))
     m = ast.Module([fn], [])
     ns = {'__sx_str__': lambda v: v if isinstance(v, SStr) else str(v),
-          '__sx_repr__': lambda c: c.escaped() if isinstance(c, SChar) else repr(c),
+          '__sx_repr__': lambda c: Escaped(c, 'repr') if isinstance(c, SChar) else repr(c),
+          '__sx_ascii__': lambda c: Escaped(c, 'ascii') if isinstance(c, SChar) else ascii(c),
           '__sx_join__': lambda parts: list(parts)}
     exec(compile(m, path, 'exec'), ns)
     _ONELINE[path] = (ns['oneline'], count)
@@ -832,31 +873,61 @@ def tables():
     return _TABLES
 
 
-class SChar:
-    """one symbolic code point with the str methods oneline() uses"""
+def regions():
+    """code point space cut at every boundary of the atoms oneline()'s verdict can depend on besides printability:
+    the forbidden set (controls, line boundaries, surrogates), ASCII, the space.  Inside one region those atoms are
+    constant; printable / not printable splits it in at most two classes.  -> [(lo, hi, printable intervals, others)]"""
+    if 'regions' not in _TABLES:
+        t = tables()
+        cuts = {0, 0x110000, 0x20, 0x21, 0x80}
+        for lo, hi in t['bad']:
+            cuts |= {lo, hi + 1}
+        cs = sorted(cuts)
+        out = []
+        for i in range(len(cs) - 1):
+            lo, hi = cs[i], cs[i + 1] - 1
+            pin = [(max(a, lo), min(b, hi)) for a, b in t['printable'] if a <= hi and b >= lo]
+            nin, cur = [], lo
+            for a, b in pin:
+                if a > cur:
+                    nin.append((cur, a - 1))
+                cur = b + 1
+            if cur <= hi:
+                nin.append((cur, hi))
+            out.append((lo, hi, pin, nin))
+        _TABLES['regions'] = out
+    return _TABLES['regions']
 
-    def __init__(self, cp):
-        self.cp = cp
+
+class SChar:
+    """one symbolic code point with the str methods oneline() uses.  The solver picks the region (fork) and the code
+    point inside it; isprintable() is constant on most regions and otherwise forks between the two classes of the
+    region, the code point then ranging over one interval of that class (every atom oneline() can test is constant
+    on a class, so one interval stands for the class: checked when the tables are built)."""
+
+    def __init__(self, ctx, name):
+        regs = regions()
+        self.ctx = ctx
+        self.name = name
+        r = ctx.choice(name + '.region', len(regs))
+        self.lo, self.hi, self.pin, self.nin = regs[r]
+        self.cp = ctx.int(name, self.lo, self.hi)
+        self._printable = None
 
     def _in(self, ranges):
-        """membership of the code point in a sorted interval table, as a balanced If-tree over the boundaries (a flat
-        disjunction of 711 intervals costs z3 seconds per query once negated; the tree is decided instantly)"""
-        import z3
-        x = self.cp.e if isinstance(self.cp, SInt) else z3.IntVal(int(self.cp))
-        pts = []
-        for lo, hi in ranges:
-            pts.append((lo, True))
-            pts.append((hi + 1, False))
-
-        def build(i, j, default):
-            if i >= j:
-                return z3.BoolVal(default)
-            m = (i + j) // 2
-            return z3.If(x < pts[m][0], build(i, m, default), build(m + 1, j, pts[m][1]))
-        return SBool(build(0, len(pts), False))
+        return s_or(*[s_and(self.cp >= lo, self.cp <= hi) for lo, hi in ranges])
 
     def isprintable(self):
-        return self._in(tables()['printable'])
+        if self._printable is None:
+            if not self.pin:
+                self._printable = False
+            elif not self.nin:
+                self._printable = True
+            else:
+                self._printable = bool(self.ctx.choice(self.name + '.printable', 2))
+                lo, hi = (self.pin if self._printable else self.nin)[0]
+                self.ctx.assume(s_and(self.cp >= lo, self.cp <= hi))
+        return self._printable
 
     def __eq__(self, other):
         if isinstance(other, str) and len(other) == 1:
@@ -866,15 +937,22 @@ class SChar:
     def __hash__(self):
         return 0
 
-    def escaped(self):
-        return Escaped(self)
+    def isascii(self):
+        return self.cp < 128
 
 
 class Escaped:
-    """repr(character): under the CPython contract an ASCII escape sequence whenever the character is not printable"""
+    """repr(character) / ascii(character): under the CPython contract an ASCII escape sequence exactly when the
+    character is not printable (repr) or not printable / not ASCII (ascii); the character itself otherwise"""
 
-    def __init__(self, ch):
+    def __init__(self, ch, how):
         self.ch = ch
+        self.how = how
+
+    def escapes(self):
+        if self.how == 'repr':
+            return not self.ch.isprintable()
+        return s_or(not self.ch.isprintable(), self.ch.cp >= 128)
 
     def __getitem__(self, k):
         if isinstance(k, slice) and (k.start, k.stop, k.step) == (1, -1, None):
@@ -891,35 +969,40 @@ class SStr:
 
 
 def h_oneline(ctx, n):
-    """for ALL strings of n code points: every element oneline() emits is either an escape sequence of a non-printable
-    character, or the character itself which then is neither a control character nor a line boundary"""
+    """for ALL strings of n code points: every element oneline() emits is either an escape sequence (ASCII by the
+    CPython contract) of a character repr()/ascii() really escapes, or the character itself, which then is neither a
+    control character nor a line boundary, and is ASCII (Processes.write encodes the record as ASCII)"""
     fn, count = lift_oneline()
-    ctx.check('oneline-shape', count == {'str': 1, 'join': 1, 'repr': 1}, sig='C13:kernel:oneline:source-shape-changed', info=count)
-    chars = [SChar(ctx.int('cp%d' % i, 0, 0x10FFFF)) for i in range(n)]
+    ctx.check('oneline-shape', count == {'str': 1, 'join': 1, 'escape': 1}, sig='C13:kernel:oneline:source-shape-changed', info=count)
+    chars = [SChar(ctx, 'cp%d' % i) for i in range(n)]
+    bad = tables()['bad']
     if not ctx.sym:
+        for c in chars:
+            c.isprintable()     # same forks as the symbolic run
         text = ''.join(chr(c.cp) for c in chars)
         import exabgp.reactor.api.response.text as mod
         out = mod.oneline(text)
-        bad = tables()['bad']
-        ok = all(not any(lo <= ord(ch) <= hi for lo, hi in bad) for ch in out)
-        ctx.check('oneline-clean', ok, sig='C13:kernel:oneline:control-or-line-boundary-emitted', info={'in': [hex(ord(c)) for c in text], 'out': out})
-        verb = sum(1 for a in text if a.isprintable() or a == ' ')
-        ctx.cover('verbatim' if verb else 'escaped')
-        return ('oneline', n, verb)
+        ctx.check('oneline-clean', all(not any(lo <= ord(ch) <= hi for lo, hi in bad) for ch in out),
+                  sig='C13:kernel:oneline:control-or-line-boundary-emitted', info={'in': [hex(ord(c)) for c in text], 'out': out})
+        ctx.check('oneline-ascii', out.isascii(), sig='C13:kernel:oneline:non-ascii-emitted', info={'in': [hex(ord(c)) for c in text], 'out': out})
+        ctx.cover('verbatim' if any(a.isprintable() for a in text) else 'escaped')
+        return ('oneline', n)
     parts = fn(SStr(chars))
     ctx.check('oneline-length', len(parts) == n, sig='C13:kernel:oneline:drops-or-adds-characters')
     verb = 0
     for p in parts:
         if isinstance(p, SChar):
             verb += 1
-            ctx.check('oneline-clean', s_not(p._in(tables()['bad'])), sig='C13:kernel:oneline:control-or-line-boundary-emitted')
+            ctx.check('oneline-clean', s_not(p._in(bad)), sig='C13:kernel:oneline:control-or-line-boundary-emitted')
+            ctx.check('oneline-ascii', p.cp < 128, sig='C13:kernel:oneline:non-ascii-emitted')
         elif isinstance(p, Escaped):
-            # an escape is clean only if the character really is one repr() escapes
-            ctx.check('oneline-clean', s_not(p.ch.isprintable()), sig='C13:kernel:oneline:escape-of-printable')
+            # what repr()/ascii() return is clean only for a character they really escape
+            ctx.check('oneline-clean', s_or(p.escapes(), s_not(p.ch._in(bad))), sig='C13:kernel:oneline:control-or-line-boundary-emitted')
+            ctx.check('oneline-ascii', s_or(p.escapes(), p.ch.cp < 128), sig='C13:kernel:oneline:non-ascii-emitted')
         else:
             ctx.check('oneline-clean', False, sig='C13:kernel:oneline:unmodelled-output', info=repr(p)[:80])
-    ctx.cover('verbatim' if verb else 'escaped')
-    return ('oneline', n, verb)
+    ctx.cover('verbatim' if any(c.isprintable() for c in chars) else 'escaped')
+    return ('oneline', n)
 
 
 def h_json_kernel(ctx, n):
@@ -960,7 +1043,8 @@ def group_plans(plans):
 
 def units(tier):
     th = tier == 'thorough'
-    T = 1500 if th else 300
+    TIER['name'] = tier
+    T = 1500 if th else 600
     us = []
     reset = R.reset_state
 
@@ -979,10 +1063,17 @@ def units(tier):
                    weight=30, max_seconds=T, reset=reset, hash_const=True))
 
     # UPDATE, one NLRI (C15's plans with the harness swapped)
+    ap = None
     for u in R.nlri_units(tier):
         fam = u.name.split('/')[2]
         if fam in ('ipv6-multicast', 'ipv4-rtc'):
             continue
+        if u.name.endswith('/addpath'):
+            # only for families the ADD-PATH session really negotiates (the harness assumes it)
+            if ap is None:
+                ap = set((int(a), int(s)) for a, s in A.families() if A.world(True, True).neg.addpath.receive(a, s))
+            if not any(R.fam_name(AFI.from_int(a), SAFI.from_int(s)) == fam for a, s in ap):
+                continue
         cover = tuple(c for c in u.must_cover if c in ('decoded', 'refused'))
         us.append(Unit('upd/nlri/' + u.name[len('dec/nlri/'):], wrap_c15_nlri(u.fn), must_cover=cover, weight=u.weight, max_seconds=T,
                        max_paths=u.max_paths, reset=reset, hash_const=True))
